@@ -308,6 +308,37 @@ func ZZ_C08_FailThenRetry() {
 	}
 	fs.FailAt = -1
 	fs.Failed = false
+	if zzNondetBool("then-another-request") {
+		// instead of a retry, the replica goes on to serve another metadata-writing request
+		// (or is closed in an orderly way, which rewrites volume.meta as well): whatever it
+		// writes must describe the directory as it is - a fresh process opens it and finds
+		// the chain from before or after the failed operation
+		before := zzMemDigest(rn)
+		_ = before
+		var err3 error
+		other := zzConcretize(zzChoice("other", 3))
+		ended3 := zzTry(func() {
+			switch other {
+			case 0:
+				err3 = rn.SetRebuilding(false)
+			case 1:
+				err3 = rn.SetCheckpoint("")
+			default:
+				err3 = rn.Close()
+			}
+		})
+		if ended3 || err3 != nil {
+			return
+		}
+		zzReach("C08.fail-then-other")
+		fs.Revive()
+		rr, oerr := zzOpenReplica()
+		zzAssert(oerr == nil && rr != nil, "C08.failed-"+opname+"-then-metadata-write.directory-does-not-reopen")
+		if rr != nil {
+			zzWellFormed("C08.failed-"+opname+"-then-metadata-write.reopened", rr)
+		}
+		return
+	}
 	var err2 error
 	rn2 := rn
 	ended2 := zzTry(func() { err2, rn2 = zzRunC08Op(rn, op, snaps) })
